@@ -16,7 +16,7 @@ RULE = ('designs of strata S1, S1x, S2, S3, S4, S5, S6 (quick: fixed core + seed
         'trial-sequence variables and >= 2 models.')
 ASSUMPTIONS = ['pycryptosat is a correct SAT oracle (truth-table cross-check when <= 16 variables)']
 BUDGET_S = {'quick': 60, 'thorough': 300}
-STRATA = ['S1', 'S1p', 'S1x', 'S2', 'S2s', 'S3', 'S4', 'S5', 'S6']
+STRATA = ['S1', 'S1n', 'S1p', 'S1x', 'S2', 'S2s', 'S3', 'S4', 'S5', 'S6']
 QUICK_CAPS = dsw.QUICK_CAPS_BIG
 CAP = {'quick': 1500, 'thorough': 20000}
 
